@@ -1,7 +1,7 @@
 (* C02/Properties.v — property theorems (Repaired model; Head = /repo HEAD) and refutation witnesses (Defective =
    the tree before any fix).
    Each theorem is closed by [exact] of a lemma from Proofs.v (or vm_compute for concrete witnesses). *)
-From OV Require Import Common.Base C02.Model C02.Proofs C02.HeadSafe C02.Told.
+From OV Require Import Common.Base C02.Model C02.Proofs C02.HeadSafe C02.Told C02.CfgValid.
 Open Scope N_scope.
 
 (* Release frees only the releasing session's own leases: every release path of the model — Release by pool
@@ -103,6 +103,26 @@ Theorem C02_unique :
     holds s1 f = Some x -> holds s2 f = Some x -> s1 = s2.
 Proof. exact unique_all. Qed.
 Print Assumptions C02_unique.
+
+(* The disjointness hypothesis of C02_unique is what Config.Validate establishes since /repo 1d4c0cb
+   (validateSubscriberPoolOverlap): [cfg_valid] - the ranges of two pools of one family and one VRF are disjoint - is
+   checked on every configuration before anything is built from it (harness: the real Config.Validate; model:
+   cfg_valid; a configuration that fails ends as "rejected-config").  [geom_fits]: ranges lie in the address space. *)
+Theorem C02_validated_config_disjoint :
+  forall ps, (forall p, In p ps -> geom_fits (p_geom p)) -> cfg_valid ps = true -> pools_disjoint (mkReg ps []).
+Proof. exact cfg_valid_disjoint. Qed.
+Print Assumptions C02_validated_config_disjoint.
+
+Theorem C02_unique_validated :
+  forall ps ss st,
+  NoDup (map pool_id ps) -> Forall pool_wf ps -> kinds_ok (mkReg ps []) -> resettable (mkReg ps []) ->
+  (forall p, In p ps -> geom_fits (p_geom p)) -> cfg_valid ps = true ->
+  NoDup (map s_id ss) -> Forall fresh_sess ss ->
+  reach Repaired (init_state ps ss) st ->
+  forall s1 s2 f x, In s1 (st_sess st) -> In s2 (st_sess st) -> s_vrf s1 = s_vrf s2 ->
+    holds s1 f = Some x -> holds s2 f = Some x -> s1 = s2.
+Proof. exact unique_validated. Qed.
+Print Assumptions C02_unique_validated.
 
 (* range pools are well-formed again after a reset (hypothesis [resettable] of the two theorems above) *)
 Theorem C02_range_pools_resettable :
@@ -218,8 +238,9 @@ Proof.
 Qed.
 Print Assumptions C02_unique_nonvacuous.
 
-(* DISJ is needed, and /repo does not enforce it: two pools of one VRF (two profiles) that share an address hand it out
-   independently - in the Repaired model too.  Finding "pools-overlap-within-vrf-accepted". *)
+(* DISJ is needed: two pools of one VRF (two profiles) that share an address hand it out independently - in the Repaired
+   model too.  /repo enforces it at configuration load since 1d4c0cb (finding "pools-overlap-within-vrf-accepted",
+   fixed): this configuration fails cfg_valid. *)
 Definition w8_ps := [new_pool F4 1 0 0 (GRange a1 a1 []); new_pool F4 2 1 0 (GRange a1 a2 [])].
 Definition w8_ss := [new_sess 1 true (Some 0) None 1; new_sess 2 true (Some 1) None 2].
 Definition w8_ops := [PA 1 0 None None None None None None; PA 2 0 None None None None None None].
@@ -228,6 +249,9 @@ Theorem C02_unique_needs_disjoint_pools :
   holds_of st 1 F4 = Some (a1, 0) /\ holds_of st 2 F4 = Some (a1, 0).
 Proof. vm_compute. split; reflexivity. Qed.
 Print Assumptions C02_unique_needs_disjoint_pools.
+Example C02_overlapping_config_rejected : cfg_valid w8_ps = false /\ cfg_valid w4_ps = true.
+Proof. vm_compute. split; reflexivity. Qed.
+Print Assumptions C02_overlapping_config_rejected.
 
 (* ------------------------------------------------------------------ IPoE: told = recorded *)
 (* In every reachable state an IPoE session that records an IPv4 address (sess.IPv4, written by handleAck)
